@@ -96,6 +96,18 @@ def gen_script(rng, alpha, syl):
     return items
 
 
+def out_of_domain_items(rng, alpha, syl):
+    """spellings that END WITH or CONTAIN the delimiter ' (outside prism_wf: two matches can then end at the
+    same position, which exercises the shared-SpellingMap merge of lines 108-113); such prisms are only
+    checked for crashes and model agreement, never against the property."""
+    items = []
+    for _ in range(rng.randint(1, 2)):
+        k = rng.choice(alpha) + rng.choice(["'", "''", "'" + rng.choice(alpha)])
+        ds = ["%s:%d:%s" % (s, rng.choice([0, 1, 2]), rng.choice(CREDS)) for s in rng.sample(syl, min(len(syl), 2))]
+        items.append("%s=%s" % (k, ";".join(ds)))
+    return items
+
+
 def gen_inputs(rng, symbols, bound, keys, delims, nrandom, maxlen):
     inputs = [""]
     for l in range(1, bound + 1):
@@ -114,6 +126,9 @@ def gen_inputs(rng, symbols, bound, keys, delims, nrandom, maxlen):
             else:
                 s += rng.choice(letters)
         s = s[:maxlen]
+        if keys and rng.random() < .3:      # end in a proper prefix of a stored spelling (completion clause)
+            k = rng.choice(keys)
+            s = s[:maxlen - len(k)] + k[:rng.randint(1, len(k))]
         if s not in seen:
             seen.add(s)
             inputs.append(s)
@@ -123,7 +138,7 @@ def gen_inputs(rng, symbols, bound, keys, delims, nrandom, maxlen):
 def gen_cases(seed, tier):
     """-> list of prism specs: dict(kind, line, alpha, delims, bound, nrandom)"""
     rng = random.Random(seed * 7919 + (1 if tier == "quick" else 2))
-    nprisms = 36 if tier == "quick" else 120
+    nprisms = 36 if tier == "quick" else 160
     specs = []
     for i in range(nprisms):
         na = rng.choice([2, 2, 3, 3, 3, 4])
@@ -137,14 +152,17 @@ def gen_cases(seed, tier):
         elif kind == "A":
             line = "A " + " ".join(syl) + " | " + " | ".join(gen_formulas(rng, alpha))
         else:
-            line = "X " + " ".join(syl) + " | " + " | ".join(gen_script(rng, alpha, syl))
+            items = gen_script(rng, alpha, syl)
+            if "'" in delims and i % 4 == 2:
+                items += out_of_domain_items(rng, alpha, syl)
+            line = "X " + " ".join(syl) + " | " + " | ".join(items)
         nsym = na + len(delims)
-        budget = 1400 if tier == "quick" else 6000
+        budget = 1400 if tier == "quick" else 16000
         bound = 1
         while sum(nsym ** l for l in range(bound + 2)) <= budget and bound < 8:
             bound += 1
         specs.append(dict(idx=i, kind=kind, line=line, alpha=alpha, delims=delims, bound=bound, tags=tags,
-                          nrandom=(60 if tier == "quick" else 300), iseed=rng.getrandbits(32)))
+                          nrandom=(60 if tier == "quick" else 400), iseed=rng.getrandbits(32)))
     return specs
 
 
@@ -356,7 +374,10 @@ def oracle(M, delims, comp, strict, s, g):
         for e in sorted(ends, reverse=True):
             for sid, (ty, endp, cr, corr) in ends[e].items():
                 want.setdefault(sid, []).append((str(endp), str(ty), cr))
-        if g["I"].get(st, {}) != want:
+        got = g["I"].get(st, {})
+        # the property speaks of the edge *set*: compare as multisets (the order of a list - descending end
+        # position - is the code's choice and is checked by the correspondence, not here)
+        if {k: sorted(v) for k, v in got.items()} != {k: sorted(v) for k, v in want.items()}:
             bad.append("transpose:not-exact")
     return bad, flags
 
@@ -444,6 +465,7 @@ def run_chunk(args):
             res["bad"].append(dict(case, clauses=["unparsable-graph"], impl=il))
             continue
         if not in_domain:
+            res["out_of_domain"] = res.get("out_of_domain", 0) + 1
             continue
         bad, flags = oracle(M, sp["delims"], comp, strict, s, g)
         if bad:
@@ -529,12 +551,13 @@ def run(ctx):
                 "letters) x the 4 flag combinations.  non-trivial = the implementation's graph shows at least one of: two ends "
                 "from one start (overlap), a reachable position pruned from the vertices, an ambiguous joint, a completion edge, "
                 "an edge spanning trailing delimiters, an edge carrying several syllables, strict spelling on a whole-input edge"
-                % (len(specs), 1400 if ctx.tier == "quick" else 6000),
+                % (len(specs), 1400 if ctx.tier == "quick" else 16000),
         "samples": samples or [dict(note="no ambiguous/completion sample in this run")],
         "exhaustive": False,
         "class_counts": classes, "graphs_by_prism_kind_in_domain": by_kind,
         "prisms": prisms, "inputs_total": sum(r["inputs"] for r in results),
         "correspondence_mismatches": len(mism), "oracle_failures_on_impl": len(bad),
+        "graphs_out_of_domain_model_agreement_only": sum(r.get("out_of_domain", 0) for r in results),
         "mutation_drills": MUTATION_DRILLS,
     })
     # --- verdicts
@@ -565,12 +588,60 @@ def run(ctx):
         ctx.notes.append("correspondence mismatches: %d (first: %s)" % (len(mism), real[0] if real else None))
 
 
-MUTATION_DRILLS = []
+MUTATION_DRILLS = [
+    # each: a hand-made, compiling change of src/rime/algo/syllabifier.cc in the scratch worktree /var/tmp/wt-c08,
+    # run as  VERIF_REPO=/var/tmp/wt-c08 VERIF_CACHE=/var/tmp/rime-verif-c08 bin/check C08 quick  (2026-09-29)
+    {"id": "M1", "mutation": "pruning pass: `if (k->second.type > last_type)` -> `if (false)` (the last_type test on syllables dropped)",
+     "fired": "VIOLATION ... no-failing-input-found; correspondence:c08, 14826 graphs differ; the property's reference does not "
+              "object (the extra abbreviation syllables are denoted by their spellings)"},
+    {"id": "M2", "mutation": "pruning pass: keep edges into non-good vertices (`if (good.find(j->first) == good.end())` -> `if (false)`)",
+     "fired": "VIOLATION with failing input: oracle:edge:into-unretained-vertex, oracle:vertex:not-on-a-path (first input 'lln')"},
+    {"id": "M3", "mutation": "delimiter skipping off by one: `while (end_pos < input.length() && ...)` -> `end_pos + 1 < input.length()`",
+     "fired": "VIOLATION with failing input \"h'\": oracle:edge:trailing-delimiters-not-maximal, "
+              "oracle:interpreted_length:not-longest-tilable-prefix, oracle:normal-tiling:edge-missing",
+     "note": "test/syllabifier_test.cc has no delimiter in any input"},
+    {"id": "M4", "mutation": "Transpose iterates the ends in ascending instead of descending order",
+     "fired": "VIOLATION ... no-failing-input-found; correspondence:c08, 9756 graphs differ (the index is still the transpose as a set, "
+              "so the property's reference does not object; the model fixes the order)",
+     "note": "test/syllabifier_test.cc never reads `indices`"},
+    {"id": "M4b", "mutation": "Transpose records only the first end of each syllable (`if (index[syll_id].empty()) push_back`)",
+     "fired": "VIOLATION with failing input: oracle:transpose:not-exact (first input 'rw')"},
+    {"id": "M5", "mutation": "merge rule: `it->second.type = (std::max)(it->second.type, props.type)` instead of min",
+     "fired": "VIOLATION with failing input 'ttt' on a hand-made Script with a syllable listed twice: oracle:edge:syllable-missing, "
+              "oracle:normal-tiling:edge-missing; 2078 graphs differ from the model"},
+    {"id": "M6", "mutation": "pruning pass: vertex test `graph->vertices[i] > last_type ||` dropped",
+     "fired": "VIOLATION with failing input 'hss': oracle:vertex:not-on-a-path; 640 graphs differ from the model"},
+]
 
 MANIFEST = {
     "category": "proof",
-    "technique": "Coq theorems over a statement-by-statement model of BuildSyllableGraph on an abstract prism "
-                 "+ extracted-model/real-code correspondence on complete SyllableGraphs of real prisms",
-    "text": "see Properties_C08.v",
-    "note": "see checks/c08.py",
+    "technique": "Coq theorems (induction over the queue loop and the backward pass, unbounded in prism, flags and input) about a "
+                 "statement-by-statement Gallina port of Syllabifier::BuildSyllableGraph over the prism as a finite map; the port is tied "
+                 "to the current source by extracting it to OCaml and diffing complete SyllableGraphs against the real "
+                 "Prism+Syllabifier (sanitizer build of /repo's working tree); failing-input search by a dynamic-programming "
+                 "reference of the property on the implementation's graphs",
+    "text": "Properties_C08.v proves, for every prism_wf prism (stored spellings distinct, none ends with a delimiter, stored types "
+            "normal/fuzzy/abbreviation), every delimiter set, both flags and every input: the model terminates within its fuel "
+            "(C08_terminates); every edge spans spelling+trailing delimiters, carries a syllable the spelling denotes with the best "
+            "type and a stored credibility, or is the completion edge (C08_edge_sound); a retained edge carries every admissible "
+            "syllable of its spelling of type <= last_type, in particular all normal and fuzzy ones (C08_edge_exact); every retained "
+            "vertex lies on a path 0 -> interpreted_length through retained edges and vertices (C08_vertex_on_path); the forward "
+            "farthest position is the longest tilable prefix and interpreted_length equals it or, only with completion and a "
+            "remainder that begins a stored spelling, the input length (C08_interpreted_is_longest_tilable_prefix), with the converse "
+            "C08_completion_extends; every tiling of that prefix by normal spellings is present edge by edge with type normal "
+            "(C08_normal_tilings_complete); indices is exactly the transpose of edges, list by list in descending end order "
+            "(C08_transpose_exact, C08_transpose_members, C08_graph_in_key_order); 5 non-vacuity examples on concrete graphs. "
+            "All `Closed under the global context`. Correspondence: generated prisms (plain syllabaries, Projection algebra, "
+            "hand-made Scripts; 2-4 letter alphabets; concatenations, abbreviations, dead ends, prefix chains) x every input to a "
+            "per-prism length bound over alphabet+delimiters + random inputs to length 24 x 4 flag combinations, complete graphs "
+            "(vertices, edges, exact credibility form, indices with pointer identity) diffed; out-of-prism_wf prisms are diffed "
+            "for model agreement only.",
+    "note": "No axioms (every theorem prints `Closed under the global context`). Trusted: Coq kernel (+vm_compute for the concrete "
+            "examples only); Dict/Syll.v as a faithful port (validated, not proved, by the correspondence); the prism as an abstract "
+            "finite map (Darts commonPrefixSearch/traverse and SpellingAccessor are not modelled below that interface; ExpandSearch "
+            "order = (length, byte order) for 7-bit keys); ExtrOcamlBasic extraction + OCaml/C++ printing glue. Hypotheses: "
+            "corrector_ == nullptr (is_correction always false; the corrector path is not modelled); prism_wf. Credibilities are "
+            "symbolic sums base + c*kCompletionPenalty + p*kPenaltyForAmbiguousSyllable; no theorem compares doubles. The "
+            "'exactly the syllables the spelling denotes' clause is proved in the form the code implements: exactly those of type "
+            "<= last_type that strict spelling does not disqualify.",
 }
